@@ -66,6 +66,8 @@ impl<U: View, V: View> Prune for Modulo<U, V> {
 
         // CASE 3: Both x and y are in bounded ranges → compute s bounds
         let mut s_candidates = Vec::with_capacity(16);
+        // Bounds may only be taken from the candidates when every (x, y) pair was enumerated
+        let mut exhaustive = true;
         
         // Special handling for fixed or small-range divisors
         if y_min == y_max {
@@ -97,9 +99,11 @@ impl<U: View, V: View> Prune for Modulo<U, V> {
                         (x_min_int..=x_max_int).map(Val::ValI).collect::<Vec<_>>()
                     } else {
                         // Large x range: check boundaries
+                        exhaustive = false;
                         vec![x_min, x_max]
                     }
                 } else {
+                    exhaustive = x_min == x_max;
                     vec![x_min, x_max]
                 };
                 
@@ -117,6 +121,7 @@ impl<U: View, V: View> Prune for Modulo<U, V> {
                 }
             } else {
                 // Large divisor range: only check boundary values
+                exhaustive = false;
                 let x_samples = if x_min == x_max {
                     vec![x_min]
                 } else {
@@ -139,6 +144,7 @@ impl<U: View, V: View> Prune for Modulo<U, V> {
             }
         } else {
             // Non-integer bounds: fall back to boundary sampling
+            exhaustive = x_min == x_max && y_min == y_max;
             let x_samples = if x_min == x_max {
                 vec![x_min]
             } else {
@@ -164,7 +170,7 @@ impl<U: View, V: View> Prune for Modulo<U, V> {
             }
         }
         
-        if !s_candidates.is_empty() {
+        if exhaustive && !s_candidates.is_empty() {
             // Find bounds for s based on modulo properties
             let s_computed_min = s_candidates.iter().fold(s_candidates[0], |acc, &x| if x < acc { x } else { acc });
             let s_computed_max = s_candidates.iter().fold(s_candidates[0], |acc, &x| if x > acc { x } else { acc });
